@@ -7,6 +7,7 @@ package adm
 
 import (
 	"context"
+	"encoding/json"
 	"errors"
 	"fmt"
 	"sort"
@@ -16,12 +17,16 @@ import (
 	"time"
 
 	admissionv1 "k8s.io/api/admission/v1"
+	authenticationv1 "k8s.io/api/authentication/v1"
 	appsv1 "k8s.io/api/apps/v1"
 	batchv1 "k8s.io/api/batch/v1"
 	corev1 "k8s.io/api/core/v1"
+	apierrors "k8s.io/apimachinery/pkg/api/errors"
 	metav1 "k8s.io/apimachinery/pkg/apis/meta/v1"
 	"k8s.io/apimachinery/pkg/runtime"
 	"k8s.io/apimachinery/pkg/runtime/schema"
+	clientscheme "k8s.io/client-go/kubernetes/scheme"
+	webhookserver "k8s.io/pod-security-admission/cmd/webhook/server"
 	"k8s.io/pod-security-admission/admission"
 	admissionapi "k8s.io/pod-security-admission/admission/api"
 	"k8s.io/pod-security-admission/api"
@@ -41,17 +46,22 @@ type ObjSpec struct {
 	CtlKind     string            `json:"ctlKind,omitempty"`
 	HasTemplate bool              `json:"hasTemplate,omitempty"`
 	Generation  int64             `json:"generation,omitempty"` // metadata.generation of a controller object
+	CtlJunk     int               `json:"ctlJunk,omitempty"`    // bits selecting kind-specific fields outside the pod template (suspend, paused, replicas ...)
 }
 
 type ReqSpec struct {
 	Group, Resource, Subresource, Namespace, Name, User, Op string
 	Object, Old                                             ObjSpec
 	DeadlineIn                                              *time.Duration // request context deadline, relative to the call
+	// Wire: hand Validate the webhook's own api.RequestAttributes over an AdmissionRequest whose
+	// objects are raw JSON (decoded by the server's deserializer) instead of in-memory fakes.
+	Wire bool
 }
 
 type WorldSpec struct {
 	NSLabels    map[string]string
 	NSErr       bool
+	ErrKind     int // flavour of the injected namespace-lookup / list error (see InjectedError)
 	Pods        []*corev1.Pod
 	ListErr     bool
 	ExpireAfter *int // cancel the request context inside the evaluator call for listed pod #k
@@ -150,6 +160,27 @@ func (NullMetrics) RecordEvaluation(metrics.Decision, api.LevelVersion, metrics.
 func (NullMetrics) RecordExemption(api.Attributes)   {}
 func (NullMetrics) RecordError(bool, api.Attributes) {}
 
+// InjectedError: the flavours of dependency failure; none of them is treated specially by the admission code.
+func InjectedError(kind int, what string) error {
+	switch kind % 8 {
+	case 1:
+		return apierrors.NewNotFound(schema.GroupResource{Resource: "namespaces"}, "gone")
+	case 2:
+		return context.DeadlineExceeded
+	case 3:
+		return context.Canceled
+	case 4:
+		return apierrors.NewTimeoutError("injected "+what+" timeout", 1)
+	case 5:
+		return apierrors.NewServerTimeout(schema.GroupResource{Resource: "namespaces"}, "get", 1)
+	case 6:
+		return apierrors.NewInternalError(errors.New("injected " + what + " internal error"))
+	case 7:
+		return fmt.Errorf("injected %s failure: %w", what, context.DeadlineExceeded)
+	}
+	return errors.New("injected " + what + " failure")
+}
+
 type fakeNS struct {
 	w   *WorldSpec
 	log *logger
@@ -158,7 +189,7 @@ type fakeNS struct {
 func (f fakeNS) GetNamespace(ctx context.Context, name string) (*corev1.Namespace, error) {
 	f.log.add(Event{Kind: "nslookup"})
 	if f.w.NSErr {
-		return nil, errors.New("injected namespace lookup failure")
+		return nil, InjectedError(f.w.ErrKind, "namespace lookup")
 	}
 	return &corev1.Namespace{ObjectMeta: metav1.ObjectMeta{Name: name, Labels: f.w.NSLabels}}, nil
 }
@@ -172,7 +203,7 @@ func (f fakeLister) ListPods(ctx context.Context, ns string) ([]*corev1.Pod, err
 	dl, ok := ctx.Deadline()
 	f.log.add(Event{Kind: "list", Deadline: dl, HasDL: ok})
 	if f.w.ListErr {
-		return nil, errors.New("injected list failure")
+		return nil, InjectedError(f.w.ErrKind, "list")
 	}
 	out := make([]*corev1.Pod, len(f.w.Pods))
 	copy(out, f.w.Pods) // prioritizePods reorders its input slice in place
@@ -202,6 +233,87 @@ func (a fakeAttrs) GetObject() (runtime.Object, error) {
 func (a fakeAttrs) GetOldObject() (runtime.Object, error) {
 	a.log.add(Event{Kind: "decodeold"})
 	return BuildObject(&a.r.Old)
+}
+
+// wireAttrs wraps the real request adapter only to log the decode calls.
+type wireAttrs struct {
+	api.Attributes
+	log *logger
+}
+
+func (a wireAttrs) GetObject() (runtime.Object, error) {
+	a.log.add(Event{Kind: "decode"})
+	return a.Attributes.GetObject()
+}
+func (a wireAttrs) GetOldObject() (runtime.Object, error) {
+	a.log.add(Event{Kind: "decodeold"})
+	return a.Attributes.GetOldObject()
+}
+
+// rawOf serialises what BuildObject would return; decode errors become undecodable bytes.
+func rawOf(o *ObjSpec, flavor int) (runtime.RawExtension, *metav1.GroupVersionKind) {
+	switch o.Kind {
+	case "decodeerr":
+		switch flavor % 3 {
+		case 0:
+			return runtime.RawExtension{Raw: []byte(`{"apiVersion":"v1","kind":"Pod","metadata":{"name":`)}, nil
+		case 1:
+			return runtime.RawExtension{Raw: []byte(`{"apiVersion":"example.test/v9","kind":"NoSuchKind","metadata":{"name":"x"}}`)}, nil
+		default:
+			return runtime.RawExtension{Raw: []byte(`{"apiVersion":"v1","kind":"Pod","spec":{"containers":"not-a-list"}}`)}, nil
+		}
+	case "nil":
+		return runtime.RawExtension{}, nil
+	}
+	obj, err := BuildObject(o)
+	if err != nil || obj == nil {
+		panic("rawOf: unexpected object")
+	}
+	obj = obj.DeepCopyObject()
+	gvks, _, err := clientscheme.Scheme.ObjectKinds(obj)
+	if err != nil || len(gvks) == 0 {
+		panic(fmt.Sprint("rawOf: no kind for object: ", err))
+	}
+	obj.GetObjectKind().SetGroupVersionKind(gvks[0])
+	b, err := json.Marshal(obj)
+	if err != nil {
+		panic("rawOf: " + err.Error())
+	}
+	return runtime.RawExtension{Raw: b}, &metav1.GroupVersionKind{Group: gvks[0].Group, Version: gvks[0].Version, Kind: gvks[0].Kind}
+}
+
+// WireRequest builds the AdmissionRequest an API server would send for req.
+func WireRequest(cfg *CfgSpec, req *ReqSpec) *admissionv1.AdmissionRequest {
+	flavor := len(req.Name) + len(req.Namespace) + len(req.User)
+	obj, kind := rawOf(&req.Object, flavor)
+	old, oldKind := rawOf(&req.Old, flavor+1)
+	if kind == nil {
+		kind = oldKind
+	}
+	if kind == nil {
+		kind = &metav1.GroupVersionKind{Version: "v1", Kind: "Pod"}
+	}
+	res := metav1.GroupVersionResource{Group: req.Group, Version: "v1", Resource: req.Resource}
+	// a user name that is empty must stay empty: the UID and groups name exempt users where there are any
+	uid, groups := "uid-1", []string{"system:authenticated"}
+	if len(cfg.ExUsers) > 0 {
+		uid, groups = cfg.ExUsers[0], append(groups, cfg.ExUsers...)
+	}
+	return &admissionv1.AdmissionRequest{
+		UID: "wire-uid", Kind: *kind, Resource: res, SubResource: req.Subresource,
+		RequestKind: kind, RequestResource: &res, RequestSubResource: req.Subresource,
+		Name: req.Name, Namespace: req.Namespace, Operation: admissionv1.Operation(req.Op),
+		UserInfo: authenticationv1.UserInfo{Username: req.User, UID: uid, Groups: groups},
+		Object:   obj, OldObject: old,
+	}
+}
+
+// AttrsFor returns the Attributes handed to Validate for req.
+func AttrsFor(cfg *CfgSpec, req *ReqSpec, log *logger) api.Attributes {
+	if req.Wire {
+		return wireAttrs{api.RequestAttributes(WireRequest(cfg, req), webhookserver.VerifDeserializer()), log}
+	}
+	return fakeAttrs{req, log}
 }
 
 // ControllerKinds: the 8 pod-bearing types (+ their resources).
@@ -237,26 +349,40 @@ func BuildObject(o *ObjSpec) (runtime.Object, error) {
 			t = template(o.Pod)
 		}
 		om := metav1.ObjectMeta{Name: "ctl", Generation: o.Generation, Labels: map[string]string{"app": "x"}, ResourceVersion: "42"}
+		j := o.CtlJunk
+		bit := func(k int) bool { return j&(1<<k) != 0 }
+		var zero, three int32 = 0, 3
+		replicas := &three
+		if bit(1) {
+			replicas = &zero
+		}
+		yes := true
+		var suspend *bool
+		if bit(0) {
+			suspend = &yes
+		}
+		sel := &metav1.LabelSelector{MatchLabels: map[string]string{"app": "x"}}
 		switch o.CtlKind {
 		case "PodTemplate":
 			return &corev1.PodTemplate{ObjectMeta: om, Template: t}, nil
 		case "ReplicationController":
 			if !o.HasTemplate {
-				return &corev1.ReplicationController{ObjectMeta: om}, nil
+				return &corev1.ReplicationController{ObjectMeta: om, Spec: corev1.ReplicationControllerSpec{Replicas: replicas}}, nil
 			}
-			return &corev1.ReplicationController{ObjectMeta: om, Spec: corev1.ReplicationControllerSpec{Template: &t}}, nil
+			return &corev1.ReplicationController{ObjectMeta: om, Spec: corev1.ReplicationControllerSpec{Replicas: replicas, Template: &t}}, nil
 		case "ReplicaSet":
-			return &appsv1.ReplicaSet{ObjectMeta: om, Spec: appsv1.ReplicaSetSpec{Template: t}}, nil
+			return &appsv1.ReplicaSet{ObjectMeta: om, Spec: appsv1.ReplicaSetSpec{Replicas: replicas, Selector: sel, Template: t}}, nil
 		case "Deployment":
-			return &appsv1.Deployment{ObjectMeta: om, Spec: appsv1.DeploymentSpec{Template: t}}, nil
+			return &appsv1.Deployment{ObjectMeta: om, Spec: appsv1.DeploymentSpec{Replicas: replicas, Selector: sel, Paused: bit(0), Template: t}}, nil
 		case "StatefulSet":
-			return &appsv1.StatefulSet{ObjectMeta: om, Spec: appsv1.StatefulSetSpec{Template: t}}, nil
+			return &appsv1.StatefulSet{ObjectMeta: om, Spec: appsv1.StatefulSetSpec{Replicas: replicas, Selector: sel, ServiceName: "svc", Template: t}}, nil
 		case "DaemonSet":
-			return &appsv1.DaemonSet{ObjectMeta: om, Spec: appsv1.DaemonSetSpec{Template: t}}, nil
+			return &appsv1.DaemonSet{ObjectMeta: om, Spec: appsv1.DaemonSetSpec{Selector: sel, MinReadySeconds: int32(j), Template: t}}, nil
 		case "Job":
-			return &batchv1.Job{ObjectMeta: om, Spec: batchv1.JobSpec{Template: t}}, nil
+			return &batchv1.Job{ObjectMeta: om, Spec: batchv1.JobSpec{Suspend: suspend, Parallelism: replicas, Template: t}}, nil
 		case "CronJob":
-			return &batchv1.CronJob{ObjectMeta: om, Spec: batchv1.CronJobSpec{JobTemplate: batchv1.JobTemplateSpec{Spec: batchv1.JobSpec{Template: t}}}}, nil
+			return &batchv1.CronJob{ObjectMeta: om, Spec: batchv1.CronJobSpec{Schedule: "* * * * *", Suspend: suspend,
+				JobTemplate: batchv1.JobTemplateSpec{Spec: batchv1.JobSpec{Suspend: suspend, Template: t}}}}, nil
 		}
 	}
 	panic("bad ObjSpec " + o.Kind + "/" + o.CtlKind)
@@ -323,7 +449,7 @@ func Run(cfg *CfgSpec, inner policy.Evaluator, req *ReqSpec, w *WorldSpec) (obs 
 					done <- nil
 				}
 			}()
-			done <- a.Validate(ctx, fakeAttrs{req, log})
+			done <- a.Validate(ctx, AttrsFor(cfg, req, log))
 		}()
 		select {
 		case r := <-done:
@@ -416,7 +542,7 @@ func WorldTerm(in *cq.Interner, w *WorldSpec) string {
 	if w.ExpireAfter != nil {
 		ex = cq.App("Some", fmt.Sprint(*w.ExpireAfter))
 	}
-	return cq.App("World", ns, in.S("injected namespace lookup failure"), pods, ex, cq.Z(baseNow))
+	return cq.App("World", ns, in.S(InjectedError(w.ErrKind, "namespace lookup").Error()), pods, ex, cq.Z(baseNow))
 }
 
 func CfgTerm(in *cq.Interner, c *CfgSpec) string {
@@ -555,6 +681,7 @@ func DeadlineCheck(cfg *CfgSpec, req *ReqSpec, o *Obs) string {
 // ---------------------------------------------------------------- long-lived instance (C15)
 
 type worldKey struct{}
+type logKey struct{}
 
 // WithWorld attaches the oracle answers of one request to its context, so that a
 // single long-lived Admission can serve many requests, also concurrently.
@@ -567,7 +694,7 @@ type ctxNS struct{}
 func (ctxNS) GetNamespace(ctx context.Context, name string) (*corev1.Namespace, error) {
 	w := ctx.Value(worldKey{}).(*WorldSpec)
 	if w.NSErr {
-		return nil, errors.New("injected namespace lookup failure")
+		return nil, InjectedError(w.ErrKind, "namespace lookup")
 	}
 	return &corev1.Namespace{ObjectMeta: metav1.ObjectMeta{Name: name, Labels: w.NSLabels}}, nil
 }
@@ -579,11 +706,15 @@ var SlowLister atomic.Bool
 
 func (ctxLister) ListPods(ctx context.Context, ns string) ([]*corev1.Pod, error) {
 	w := ctx.Value(worldKey{}).(*WorldSpec)
+	if lg, ok := ctx.Value(logKey{}).(*logger); ok {
+		d, has := ctx.Deadline()
+		lg.add(Event{Kind: "list", Deadline: d, HasDL: has})
+	}
 	if SlowLister.Load() {
 		time.Sleep(300 * time.Microsecond)
 	}
 	if w.ListErr {
-		return nil, errors.New("injected list failure")
+		return nil, InjectedError(w.ErrKind, "list")
 	}
 	out := make([]*corev1.Pod, len(w.Pods))
 	copy(out, w.Pods)
@@ -592,7 +723,8 @@ func (ctxLister) ListPods(ctx context.Context, ns string) ([]*corev1.Pod, error)
 
 // LongLived is one Admission serving requests whose oracle answers travel in the context.
 type LongLived struct {
-	A *admission.Admission
+	A   *admission.Admission
+	Cfg *CfgSpec
 }
 
 func NewLongLived(cfg *CfgSpec, ev policy.Evaluator, rec metrics.Recorder) (*LongLived, error) {
@@ -600,18 +732,33 @@ func NewLongLived(cfg *CfgSpec, ev policy.Evaluator, rec metrics.Recorder) (*Lon
 	if err != nil {
 		return nil, err
 	}
-	return &LongLived{A: a}, nil
+	return &LongLived{A: a, Cfg: cfg}, nil
 }
 
 // Serve answers one request; the response is returned as handed out (possibly a shared object).
 func (l *LongLived) Serve(req *ReqSpec, w *WorldSpec) (resp *admissionv1.AdmissionResponse, shared string, pan string) {
+	resp, shared, pan, _ = l.ServeChecked(req, w)
+	return
+}
+
+// ServeChecked is Serve under the request's own deadline; dl reports a ListPods context deadline
+// outside what this request alone (configuration and request deadline) accounts for.
+func (l *LongLived) ServeChecked(req *ReqSpec, w *WorldSpec) (resp *admissionv1.AdmissionResponse, shared string, pan string, dl string) {
 	defer func() {
 		if e := recover(); e != nil {
 			pan = fmt.Sprint(e)
 		}
 	}()
 	log := &logger{}
-	resp = l.A.Validate(WithWorld(context.Background(), w), fakeAttrs{req, log})
+	t0 := time.Now()
+	ctx := context.WithValue(WithWorld(context.Background(), w), logKey{}, log)
+	if req.DeadlineIn != nil {
+		var c context.CancelFunc
+		ctx, c = context.WithDeadline(ctx, t0.Add(*req.DeadlineIn))
+		defer c()
+	}
+	resp = l.A.Validate(ctx, AttrsFor(l.Cfg, req, log))
+	dl = DeadlineCheck(l.Cfg, req, &Obs{Trace: log.events, T0: t0})
 	shared = "Fresh"
 	for name, p := range admission.VerifSharedResponses() {
 		if p == resp {
